@@ -2,10 +2,13 @@
    _version_nodot, _is_threaded_cpython, _abi3_applies, _cpython_abis, cpython_tags, _generic_abi, generic_tags,
    _py_interpreter_range, compatible_tags, interpreter_name, interpreter_version, sys_tags.
    Strings are code-point lists; a tag is the argument triple of Tag(interpreter, abi, platform) (Tag.__init__ lower-cases
-   each part: [lower_tag]).  Definitions only; the theorems are in TagsProofs.v. *)
+   each part: [lower_tag]).  str.lower() is the exact one (NamesX.lower_full: the interpreter's full table and the Final_Sigma
+   rule, tied to the interpreter by the n.lower stream of C13) and the regex class backslash-d is the exact Unicode one
+   (Gen/WordTable.digit_ranges), so the model also answers for non-ASCII input.  Definitions only; the theorems are in TagsProofs.v. *)
 From Coq Require Import List Arith NArith Bool.
 Import ListNotations.
 Require Import VParse VDec Tags TagsLit.
+Require NamesX WordTable.
 Open Scope N_scope.
 
 Notation tag := (list N * list N * list N)%type (only parsing).
@@ -18,8 +21,11 @@ Fixpoint remove_first (x : str) (l : list str) : list str :=                    
 Fixpoint starts_with (p s : str) : bool :=
   match p, s with [] , _ => true | x :: p', y :: s' => (x =? y) && starts_with p' s' | _ :: _, [] => false end.
 
-(* str.lower(), ASCII part (VParse.lc) *)
-Definition lower (s : str) : str := map lc s.
+(* str.lower(): exact (Unicode); on ASCII text it is [map lc] (TagsProofs.lower_ascii) *)
+Definition lower (s : str) : str := NamesX.lower_full s.
+(* the regex class \d on str patterns: ASCII digits and every other Unicode decimal digit (category Nd) *)
+Definition is_ud (c : char) : bool :=
+  is_digit c || ((128 <=? c) && existsb (fun p => (fst (fst p) <=? c) && (c <=? snd (fst p))) WordTable.digit_ranges).
 Definition lower_tag (t : tag) : tag := let '(i, a, p) := t in (lower i, lower a, lower p).
 Definition tag_str (t : tag) : str := let '(i, a, p) := lower_tag t in i ++ [45] ++ a ++ [45] ++ p.   (* Tag.__str__ *)
 
@@ -39,13 +45,13 @@ Fixpoint tup_lt (a b : list nat) : bool :=
   end.
 Definition tup_ge (a b : list nat) : bool := negb (tup_lt a b).
 
-(* _is_threaded_cpython: abis[0] matches  cp, one or more digits, then any text up to a newline (the group); the flag is: 't' occurs in the group *)
+(* _is_threaded_cpython: abis[0] matches  cp, one or more digits (backslash-d: Unicode decimal digits), then any text up to a newline (the group); the flag is: 't' occurs in the group *)
 Definition not_nl (c : char) : bool := negb (c =? 10).
 Definition threaded_abi (a : str) : bool :=
   match a with
   | c1 :: c2 :: r =>
       if (c1 =? 99) && (c2 =? 112) then
-        let '(ds, rest) := span is_digit r in
+        let '(ds, rest) := span is_ud r in
         match ds with [] => false | _ :: _ => existsb (N.eqb 116) (fst (span not_nl rest)) end
       else false
   | _ => false
